@@ -45,6 +45,44 @@ add("C11", "vh-rt", True, "exploration",
     "Every world command (committed or not) and fabricated ids are looked up by address; is_ancestor and get_location_from are compared with reachability in the abstract DAG for all pairs (small) or 500 sampled pairs incl. ancestor pairs (large), on graphs whose segments carry skip lists.",
     "Ancestry oracle is reachability in the generated DAG; held on the graphs explored.")
 
+
+add("C07", "vh-vmrt", True, "exploration",
+    "model-based property testing of the real VmPolicy on ClientState (generated multi-head graph states and action outcomes vs a Rust mirror of the policy text; graph walked through the storage API)",
+    "Generated graph states (1-4 heads from divergent clients) and generated action outcomes (check failure, panic, fallible action, failure inside finish, nested actions) are checked for the full success/failure dichotomy: heads, ancestry, committed ids, fact scan, effect order and attribution, sink protocol.",
+    "'Graph contents' = commands reachable from committed heads (merge segments written by a collapse before a failing action stay unreferenced); MemStorageProvider only; a zero-publish action may return EmptyPerspective (recorded as a label).")
+add("C29", "vh-vmrt", True, "exploration",
+    "differential testing against an ordered model store (generated schemas and policy text compiled per case; query results surfaced as effects; storage fact scan decoded by an independent key decoder)",
+    "Generated fact schemas (5 key types, 1-3 keys, 0-2 values) with create/update/delete and all 7 query forms (query, exists, count_up_to, at_least, at_most, exactly, map) incl. prefix binds, value filters, literal and parameter forms, histories beyond the compaction depth; effects and the stored fact scan must equal the model.",
+    "Only in-domain writes plus the wrong-update case; small value alphabets including extremes; single client; no session perspectives.")
+add("C35", "vh-vmrt", True, "exploration",
+    "mutation-based authenticity testing of a signature-verifying policy on the real runtime (two-device signed histories delivered command by command under 7 single wire mutations, then unmodified)",
+    "Honest signed histories (real crypto, envelope, idam, device and perspective FFIs, deterministic engine) are delivered to a fresh replica, each command first under single mutations of payload, name, author, signature, id, parent and wire bytes (must be refused with heads, ids, facts and effects unchanged) and then unmodified (must be accepted); finally B == A.",
+    "The policy is the harness's own signing policy (Init author binding added); a rejected transaction is dropped; fields the statement does not name (parent max_cut, priority, policy field, trailing bytes, merge ids) are recorded as labels only.")
+add("C34", "vh-cry", True, "exploration",
+    "property-based mutation of signed-command inputs (single/multi-point, field-boundary shifts) against direct and FFI-table sign/verify, with cross-layer differential",
+    "Each case signs a generated command and applies up to 16 modifications (data, name, parent, signature bytes, other key, claimed id, boundary shifts that keep the concatenation identical); every one must be rejected, ids must be consistent between sign, verify and the crypto FFI.",
+    "Ed25519/SHA-2 primitives trusted; deterministic seeded keys; FFI names restricted to policy identifiers; DefaultCipherSuite only.")
+add("C36", "vh-cry", True, "exploration",
+    "property-based wrap/serialize/mutate/unwrap over all 6 algorithm kinds (11 key types), unwrap-as-every-type and second-engine cross checks",
+    "Wrapped keys of every kind are serialized, modified field by field (flips, variant retag, splices from re-wraps / other keys, truncation) and unwrapped as all 11 types on two engines: every modified or foreign form must be refused; the pristine form must round-trip with the same id and interchangeable behaviour.",
+    "AES-256-GCM and serde trusted; AEAD/MAC kinds via harness key types built with the crate's unwrapped! macro; same-kind other-type unwrap is outside the statement (recorded as a label).")
+add("C37", "vh-cry", True, "exploration",
+    "property-based seal/open round trip plus one-at-a-time and multi-point modification of ciphertext, encapsulation and every context component for 5 primitives",
+    "GroupKey messages, APQ topic messages, sealed group keys, sealed PSK seeds and sealed topic keys: untouched input opens to the exact plaintext / an equivalent secret; every modification of ciphertext, encapsulation or any context component (label, parent, author/sender keys, group, topic, version, recipient) must fail.",
+    "AES-GCM/HKDF/DHKEM primitives trusted; seeded deterministic randomness; DefaultCipherSuite only.")
+add("C45", "vh-cry", True, "exploration",
+    "model-based stateful testing of MemStore and fs_keystore::Store against a HashMap, directory-listing oracle after every op, multi-handle reopen/clone, KeyStoreExt with real wrapped keys",
+    "Generated op sequences (entry/insert/get/remove/vacant-dropped/duplicate insert/reopen/clone) over prefix-related ids; after every op all ids read back as the model says and the directory lists exactly the occupied ids; a reopened store shows the same contents.",
+    "Single-threaded, one entry at a time per id (cross-process flock not covered); tmpfs temp dirs; payloads <= 400 B on the file system.")
+add("C16", "vh-rt", True, "exploration",
+    "stateful property testing of real sync sessions between two generated replicas with a bounded-progress oracle",
+    "Two replicas holding generated downward-closed subsets of one world sync in repeated sessions (persistent peer caches, generated receive-buffer sizes with BufferTooSmall retries, mem/file back ends) until a session is empty, optionally alternating both directions until quiet: each session must gain >= 1 missing command while any is missing, the session count is bounded, finally A >= B and (bidirectional) identical heads, facts and hello heads; sizes exceed 100 commands per response and 100 segments per session.",
+    "'Eventually' is decided as bounded progress (sessions <= missing + missing/50 + 4); the driver mirrors a transport with one PeerCache per direction and one transaction per session.")
+add("C17", "vh-rt", True, "exploration",
+    "stateful property testing of real sync sessions with per-message oracles (hand-decoded response headers)",
+    "Per session: response indexes 0,1,2.., exactly one end message carrying the right count, every sent command is committed at the responder, add_commands of each response succeeds in order, requester graph == previous + sent, termination within a response bound; incl. responses that stop mid-segment and retries after BufferTooSmall.",
+    "Termination is decided by a bound of 5000 responses per session (far above any sound session).")
+
 # not built yet: crate assignment only
 add("C01", "vh-rt", True, "exploration",
     'metamorphic + model-based property testing (proptest worlds, k delivery scripts, reference braid model)',
